@@ -10,6 +10,12 @@ c08.step <sync> <ovw> <reidx> <state> <op>            -> ok <err> <state>     (e
   op := setData rows | update list(id) rows <ow> | locWrite list(id) rows | ilocWrite list(nat) rows
       | overwrite rows | overwriteIds list(id) rows
 c08.flatten list(block)                               -> ok list(id ty list(id))
+hist  := <state> list(state) <nrefs> list(opt(list(nat)))
+c08.hstep <sync> <ovw> <reidx> <ilocLabel> <sliceOwnsData> <hist> <hop>   -> ok <err> <hist>
+  hop := pub <op> | keepRef | take list(id) | takeI list(nat) | heldSet <k> rows | heldUpdate <k> list(id) rows | drop <k>
+       | takeI1 <k> | takeView list(nat)
+c08.cfilter list(state) list(id)                      -> ok opt(list(rows)) opt(<common length>)
+c08.csetattr list(state) rows                         -> ok <err> <state>
 ``` -/
 namespace Femio.C08D
 open Femio.Proto Attr
@@ -45,15 +51,25 @@ def opP : P Op := do
   | "overwriteIds" => do let i ← listOf nat; let r ← rowsP; pure (.overwriteIds i r)
   | _ => failure
 
-/-- the `Except` behind `Attr.step` (same functions; `step` maps an error to "state unchanged") -/
-def stepE (cfg : Cfg) (s : State) : Op → Except Err State
-  | .setData v => setData s v
-  | .update i r true => updateOverwrite cfg s i r
-  | .update i r false => updateAppend s i r
-  | .locWrite sel v => locWrite cfg s sel v
-  | .overwrite v => overwrite cfg s v
-  | .ilocWrite p v => ilocWrite cfg s p v
-  | .overwriteIds i v => overwriteIds s i v
+def histP : P Hist := do
+  let cur ← stateP; let held ← listOf stateP; let refs ← nat; let vws ← listOf (optOf (listOf nat))
+  pure ⟨cur, held, refs, vws⟩
+def showHist (h : Hist) : String :=
+  s!"{showState h.cur} {showList showState h.held} {h.refs} {showList (showOpt (showList toString)) h.vws}"
+
+def hopP : P HOp := do
+  let t ← tok
+  match t with
+  | "pub" => HOp.pub <$> opP
+  | "keepRef" => pure .keepRef
+  | "take" => HOp.take <$> listOf nat
+  | "takeI" => HOp.takeI <$> listOf nat
+  | "heldSet" => do let k ← nat; let r ← rowsP; pure (.heldSet k r)
+  | "heldUpdate" => do let k ← nat; let i ← listOf nat; let r ← rowsP; pure (.heldUpdate k i r)
+  | "drop" => HOp.drop <$> nat
+  | "takeI1" => HOp.takeI1 <$> nat
+  | "takeView" => HOp.takeView <$> listOf nat
+  | _ => failure
 
 def handle : List String → Option String
   | "c08.new" :: rest => do
@@ -61,7 +77,7 @@ def handle : List String → Option String
     some (reply ⟨[], [], [], none⟩ (mk ids rows wi))
   | "c08.step" :: rest => do
     let (cfg, s, op) ← run (do
-      let a ← bool; let b ← bool; let c ← bool; let s ← stateP; let op ← opP; pure ((⟨a, b, c⟩ : Cfg), s, op)) rest
+      let a ← bool; let b ← bool; let c ← bool; let s ← stateP; let op ← opP; pure ((⟨a, b, c, true, true⟩ : Cfg), s, op)) rest
     let r := stepE cfg s op
     -- consistency of the driver with the function the theorems are about
     let s' := step cfg s op
@@ -71,6 +87,18 @@ def handle : List String → Option String
     let bs ← run (listOf blockP) rest
     let flat := Core.flatten (bs.map (·.2))
     some ("ok " ++ showList (fun (e : Core.Elem) => s!"{e.id} {e.ty} {showList toString e.conn}") flat)
+  | "c08.hstep" :: rest => do
+    let (cfg, h, op) ← run (do
+      let a ← bool; let b ← bool; let c ← bool; let d ← bool; let e ← bool; let h ← histP; let op ← hopP
+      pure ((⟨a, b, c, d, e⟩ : Cfg), h, op)) rest
+    let (e, h') := hstepE cfg h op
+    some s!"ok {match e with | none => "ok" | some e => showErr e} {showHist h'}"
+  | "c08.cfilter" :: rest => do
+    let (c, sel) ← run (do let c ← listOf stateP; let sel ← listOf nat; pure (c, sel)) rest
+    some ("ok " ++ showOpt (showList showRows) (collFilter c sel) ++ " " ++ showOpt toString (collLength c))
+  | "c08.csetattr" :: rest => do
+    let (c, v) ← run (do let c ← listOf stateP; let v ← rowsP; pure (c, v)) rest
+    some (reply ⟨[], [], [], none⟩ (collSetAttr c v))
   | _ => none
 
 end Femio.C08D
